@@ -198,8 +198,13 @@ tagspec(struct scope *s)
 			error(&tok.loc, "redeclaration of tag '%s' with different kind", tag);
 	} else {
 		if (kind == TYPEENUM) {
+			if (!et && tok.kind != TLBRACE)
+				error(&tok.loc, "enum type has no enumerator list and is not complete");
 			t = mktype(kind, PROPSCALAR|PROPARITH|PROPREAL|PROPINT);
 			t->base = et;
+			t->size = et ? et->size : 0;
+			t->align = et ? et->align : 0;
+			t->u.basic.issigned = et && et->u.basic.issigned;
 		} else {
 			t = mktype(kind, 0);
 			t->size = 0;
@@ -211,8 +216,11 @@ tagspec(struct scope *s)
 		if (tag)
 			scopeputtag(s, tag, t);
 	}
-	if (tok.kind != TLBRACE)
+	if (tok.kind != TLBRACE) {
+		if (!tag)
+			error(&tok.loc, "expected identifier or '{' after '%s'", kind == TYPESTRUCT ? "struct" : kind == TYPEUNION ? "union" : "enum");
 		return t;
+	}
 	if (!t->incomplete)
 		error(&tok.loc, "redefinition of tag '%s'", tag);
 	next();
